@@ -783,6 +783,13 @@ func (c *wsConn) tryReconnect(ctx context.Context) bool {
 
 		c.stopPings = c.setupPings()
 
+		// a new connection counts as activity: the connection loop re-arms its idle
+		// timer, which has been measuring the silence of the connection that was lost
+		select {
+		case c.pongs <- struct{}{}:
+		default:
+		}
+
 		vhook("w.end", c, "site", "swap")
 		c.writeLk.Unlock()
 
